@@ -42,7 +42,10 @@ Definition opcode (c : cmd) : Z :=
   end.
 
 Inductive req := FeatureReq | NameReq | HostConnReq | TerminateInd | DetachBr | EncReq | ConnectInd.
-Inductive rsp := FeatureRsp | NameRes | Accepted | PeerTerminate.
+(* DeferredConnFail is not a PDU: it is the callback LE Create Connection Cancel schedules with
+   call_soon to send the LE Connection Complete (status 0x02) after its own Command Complete; it
+   runs in order with the deliveries to the CUT scheduled before and after it *)
+Inductive rsp := FeatureRsp | NameRes | Accepted | PeerTerminate | DeferredConnFail.
 
 Inductive out :=
 | Status (op st : Z) | Complete (op st : Z)
@@ -131,7 +134,9 @@ Definition step_cmd (s : pstate) (c : cmd) : pstate * list out :=
   | LeCancel =>
       match p_pend_le s with
       | None => (s, [Complete op 12])
-      | Some a => (upd s None (p_conns s) (close (PLe a) (p_open s)) (p_to s), [Complete op 0; LeConn 2 0 a])
+      | Some a =>
+          (mkP None (p_conns s) (close (PLe a) (p_open s)) (p_to s) (p_from s ++ [(a, DeferredConnFail)])
+               (p_present s) (p_peer_conn s) (p_peer_req s), [Complete op 0])
       end
   | Disconnect h =>
       match find_any h (p_conns s) with
@@ -235,6 +240,7 @@ Definition p_step (s : pstate) (o : op) : pstate * list out :=
               let h := alloc (p_conns s) in
               (mkP (p_pend_le s1) (p_conns s1 ++ [mkConn h a BR]) (close (PClassic a) (p_open s1)) (p_to s1) rest
                    (p_present s1) (p_peer_conn s1) (p_peer_req s1), [Conn 0 h a])
+          | DeferredConnFail => (s1, [LeConn 2 0 a])
           | PeerTerminate =>
               match conn_to a LE (p_conns s) with
               | Some k =>
@@ -273,6 +279,20 @@ Fixpoint p_run (s : pstate) (os : list op) : pstate * list out :=
 Definition macro (x : op) : list op := [x; ToPeer; ToCut].
 Definition settled (xs : list op) : list op := flat_map macro xs.
 
+(* deliver what is on the link, oldest PDU towards the peers first, until it is quiet *)
+Fixpoint drain (fuel : nat) (s : pstate) : pstate * list out :=
+  match fuel with
+  | O => (s, [])
+  | S f =>
+      match p_to s, p_from s with
+      | [], [] => (s, [])
+      | _ :: _, _ => let '(s1, o1) := p_step s ToPeer in let '(s2, o2) := drain f s1 in (s2, o1 ++ o2)
+      | [], _ :: _ => let '(s1, o1) := p_step s ToCut in let '(s2, o2) := drain f s1 in (s2, o1 ++ o2)
+      end
+  end.
+Definition drain_fuel (s : pstate) : nat := (2 * (length (p_to s) + length (p_from s)) + 2)%nat.
+Definition drain_all (s : pstate) : pstate := fst (drain (drain_fuel s) s).
+
 (* the link has nothing in flight *)
 Definition p_quiet (s : pstate) : bool :=
   match p_to s, p_from s with [], [] => true | _, _ => false end.
@@ -305,6 +325,32 @@ Fixpoint wf_ext (s : pstate) (xs : list op) : bool :=
   | x :: xs' => ext_ok s x && wf_ext (fst (p_run s (macro x))) xs'
   end.
 
+(* ---- arbitrary interleavings, by complete evaluation over a bounded scope ----
+   [concludes s]: delivering everything that is in flight in s leaves only procedures that are
+   open-ended by specification.  [all_ok d s]: this holds in s and in every state reachable from
+   s by at most d further steps over [alphabet] - commands, peer actions and single PDU
+   deliveries in ANY order (commands issued while PDUs are in flight, peers disconnecting while a
+   request is on its way, ...).  Two peers: 2 (LE) and 3 (classic); handle 1 is the first handle
+   the controller allocates. *)
+Definition concludes (s : pstate) : bool :=
+  let s' := drain_all s in p_quiet s' && forallb (open_ended s') (p_open s').
+
+Definition alphabet : list op :=
+  [Cmd (LeCreate false 2); Cmd LeCancel; Adv 2; Cmd (ReadFeat 1); Cmd (Encrypt 1); Cmd (Disconnect 1);
+   PeerDisconnect 2; Cmd (ClassicCreate 3); PeerAccept 3; Cmd (RemoteName 3); ToPeer; ToCut].
+
+Fixpoint all_ok (depth : nat) (s : pstate) : bool :=
+  concludes s &&
+  match depth with
+  | O => true
+  | S d => forallb (fun o => all_ok d (fst (p_step s o))) alphabet
+  end.
+
+(* a state with an LE connection to peer 2 (handle 1) and a classic connection to peer 3 (handle 2),
+   nothing in flight: the second starting point of the bounded exploration *)
+Definition connected_state : pstate :=
+  fst (p_run (p_init [2; 3]) (settled [Cmd (LeCreate false 2); Adv 2; Cmd (ClassicCreate 3); PeerAccept 3])).
+
 (* encodings for the harness *)
 Definition out_code (o : out) : list Z :=
   match o with
@@ -316,4 +362,18 @@ Definition proc_code (p : proc) : list Z :=
   match p with PLe a => [0; a] | PFeat h => [1; h] | PClassic a => [2; a] | PName a => [3; a] end.
 Definition run_obs (present : list Z) (os : list op) :=
   let '(s, o) := p_run (p_init present) os in
+  (map out_code o, map proc_code (p_open s), p_quiet s, forallb (open_ended s) (p_open s)).
+
+(* for the harness: groups of steps issued back to back, the link drained after each group *)
+Fixpoint run_groups (s : pstate) (gs : list (list op)) : pstate * list out :=
+  match gs with
+  | [] => (s, [])
+  | g :: gs' =>
+      let '(s1, o1) := p_run s g in
+      let '(s2, o2) := drain (drain_fuel s1) s1 in
+      let '(s3, o3) := run_groups s2 gs' in
+      (s3, o1 ++ o2 ++ o3)
+  end.
+Definition groups_obs (present : list Z) (gs : list (list op)) :=
+  let '(s, o) := run_groups (p_init present) gs in
   (map out_code o, map proc_code (p_open s), p_quiet s, forallb (open_ended s) (p_open s)).
